@@ -438,7 +438,9 @@ def generate(ctx):
             n = int(np.prod(shape))
             k = int(rng.choice([1, 1, 2, 3]))
             nph = int(rng.integers(1, 5))
-            ids = sorted(int(x) for x in rng.choice(8, nph, replace=False)) if rng.random() < 0.4 else None
+            # scattered ids, incl. two-digit ones (group names '10' < '2' as strings)
+            pool_ids = np.arange(8) if rng.random() < 0.5 else np.array([0, 1, 2, 3, 5, 9, 10, 11, 12, 20, 100])
+            ids = sorted(int(x) for x in rng.choice(pool_ids, nph, replace=False)) if rng.random() < 0.5 else None
             mask = None
             if rng.random() < 0.4 and n > 2:
                 mask = rng.random(n) < 0.7
